@@ -6,6 +6,7 @@ import (
 	"testing"
 
 	v "github.com/pion/dtls/v3/internal/verifc18"
+	vhs "github.com/pion/dtls/v3/internal/verifc18hs"
 	"github.com/pion/dtls/v3/pkg/protocol/handshake"
 )
 
@@ -20,9 +21,10 @@ func c18DumpHeader(h *handshake.Header) v.Dump {
 	return d
 }
 
-// TestVerifC18HandshakeHeader: the 12-byte handshake header (id 2).
-func TestVerifC18HandshakeHeader(t *testing.T) {
-	c := &v.Codec{
+// TestVerifC18Handshake: the 12-byte handshake header (id 2), the handshake envelope and the
+// individual messages (ids 11-17).
+func TestVerifC18Handshake(t *testing.T) {
+	hdr := &v.Codec{
 		Name: "hs_header", ID: 2,
 		Decode: func(in []byte) (*v.Decoded, error) {
 			var h handshake.Header
@@ -46,5 +48,5 @@ func TestVerifC18HandshakeHeader(t *testing.T) {
 			return c18DumpHeader(&h), out, err == nil
 		},
 	}
-	v.Run(t, []*v.Codec{c})
+	v.Run(t, append([]*v.Codec{hdr}, vhs.Codecs()...))
 }
